@@ -16,6 +16,7 @@ import (
 	"github.com/fullstorydev/grpchan/httpgrpc"
 	"github.com/fullstorydev/grpchan/inprocgrpc"
 	"github.com/fullstorydev/grpchan/simrt"
+	"github.com/jhump/protoreflect/dynamic"
 	"google.golang.org/grpc"
 	"google.golang.org/grpc/status"
 	"google.golang.org/protobuf/proto"
@@ -445,10 +446,25 @@ func (s *Sim) makeCloner(kind int) inprocgrpc.Cloner {
 		inner = inprocgrpc.CodecCloner(protoCodec{})
 	case 3:
 		inner = inprocgrpc.CloneFunc(func(in any) (any, error) {
+			if dm, ok := in.(*dynamic.Message); ok {
+				b, err := dm.Marshal()
+				if err != nil {
+					return nil, err
+				}
+				out := dynamic.NewMessage(dm.GetMessageDescriptor())
+				return out, out.Unmarshal(b)
+			}
 			return proto.Clone(in.(proto.Message)), nil
 		})
 	case 4:
 		inner = inprocgrpc.CopyFunc(func(out, in any) error {
+			if isDyn(out) || isDyn(in) {
+				b, err := anyMarshal(in)
+				if err != nil {
+					return err
+				}
+				return anyUnmarshal(b, out)
+			}
 			o := out.(proto.Message)
 			proto.Reset(o)
 			proto.Merge(o, in.(proto.Message))
@@ -458,10 +474,23 @@ func (s *Sim) makeCloner(kind int) inprocgrpc.Cloner {
 	return &recCloner{s: s, inner: inner}
 }
 
-type protoCodec struct{}
+// anyMarshal / anyUnmarshal: the wire form of a generated or a dynamic message.
+func anyMarshal(v any) ([]byte, error) {
+	if dm, ok := v.(*dynamic.Message); ok {
+		return dm.Marshal()
+	}
+	return proto.Marshal(v.(proto.Message))
+}
 
-func (protoCodec) Marshal(v any) ([]byte, error) { return proto.Marshal(v.(proto.Message)) }
-func (protoCodec) Unmarshal(b []byte, v any) error {
+func anyUnmarshal(b []byte, v any) error {
+	if dm, ok := v.(*dynamic.Message); ok {
+		return dm.Unmarshal(b)
+	}
 	return proto.Unmarshal(b, v.(proto.Message))
 }
+
+type protoCodec struct{}
+
+func (protoCodec) Marshal(v any) ([]byte, error)   { return anyMarshal(v) }
+func (protoCodec) Unmarshal(b []byte, v any) error { return anyUnmarshal(b, v) }
 func (protoCodec) Name() string { return "simproto" }
